@@ -117,3 +117,45 @@ Definition run_received (n : nat) (o : nat) (h : list (option (list nat) * list 
   run_mentioned o h || (match o_dflt (odesc o) with Some _ => (o <? n)%nat | None => false end).
 
 End Spec.
+
+(* ---------------- typed NOTIFIED values (Model.n_store / n_fail): the notification function's answer selects ownership only ---------------- *)
+Section Agree.
+Variables val var1 var2 : Type.
+(* two assignments (over different kinds of variables, e.g. the same option set with two different notification functions) agree on
+   everything the assignment logic looks at and records: the value states and the accepted parser results of every option *)
+Definition agree (cs1 : nat -> @cell val var1) (cs2 : nat -> @cell val var2) : Prop :=
+  forall o, c_state (cs1 o) = c_state (cs2 o) /\ c_vals (cs1 o) = c_vals (cs2 o).
+End Agree.
+
+Section NotifiedSpec.
+Variables val obj : Type.
+Variable create : nat -> obj.
+Variable apply : nat -> val -> obj -> obj.
+
+(* the objects obs were delivered for the accepted parser results xs: one call per result, in order, each with an object the result was
+   parsed into (a new one, or the one the context kept) *)
+Definition delivered (o : nat) (xs : list val) (obs : list obj) : Prop :=
+  Forall2 (fun x ob => exists pv, ob = apply o x pv) xs obs.
+
+(* from cell c to cell c' the option received the parser results xs and the notification function was called exactly with obs *)
+Definition notified_step (o : nat) (c c' : @cell val (nstate obj)) : Prop :=
+  exists xs obs, c_vals c' = c_vals c ++ xs /\ n_log (c_var c') = n_log (c_var c) ++ obs /\ delivered o xs obs.
+
+(* every object the library created for the option was deleted exactly once - by the library (declined, or the string was refused) or by the
+   context (replaced by a newer object) - or is the one object the context owns; a value with a location has handed an object over *)
+Definition accounted (st : nstate obj) : Prop :=
+  n_made st = n_freed st + n_cfreed st + (match n_held st with Some _ => 1 | None => 0 end) /\
+  (n_loc st = true -> n_held st <> None).
+
+(* a context that owns nothing and a value without location (the state of a declining notifier) *)
+Definition owns_nothing (st : nstate obj) : Prop := n_loc st = false /\ n_held st = None.
+
+(* ... stays like that when the function always declines: each accepted result x was delivered as a NEW object holding exactly x, and
+   every created object (also those of refused strings) was deleted by the library *)
+Definition declined_step (o : nat) (c c' : @cell val (nstate obj)) : Prop :=
+  exists xs, c_vals c' = c_vals c ++ xs /\
+             n_log (c_var c') = n_log (c_var c) ++ map (fun x => apply o x (create o)) xs /\
+             owns_nothing (c_var c') /\
+             n_made (c_var c') - n_freed (c_var c') = n_made (c_var c) - n_freed (c_var c) /\
+             n_cfreed (c_var c') = n_cfreed (c_var c).
+End NotifiedSpec.
